@@ -8,6 +8,8 @@ c18_models) and `draws` Gumbel error draws (budgets 0.5 / 5 / 50 in turn), forec
                 marginal utility at zero for the others; residual <= 1e-6 (relative)
   optimal       total utility >= that of forecast_bruteforce_one_draw (SLSQP) - 1e-6, on the first `brute` draws
   labels        the same consumptions, position by position, under the three labellings
+  assumed-callee-contracts   (m3) sample test of the assumed contracts of identification_chosen_alternatives (deterministic) and
+                optimal_consumption (new dict, one entry per alternative of the given set, total = function of the arguments)
 Prints one JSON line {"cases": n, "failures": [...]}.
 """
 import json
@@ -65,6 +67,36 @@ def check_solution(spec, sol, budget, eps_pos):
     return bad
 
 
+def assumed_callee_contracts(model, row, budget, eps):
+    """(m3) sample test of the ASSUMED contracts the deductive contract of forecast_bisection_one_draw rests on
+    (contracts/c18_mdcev.py): identification_chosen_alternatives is a deterministic function of its arguments;
+    optimal_consumption returns a NEW dict with exactly one entry per alternative of the given set, leaves the set alone, and
+    its total is a function of the arguments.  Returns a list of violated clauses."""
+    bad = []
+    a = model.identification_chosen_alternatives(database=row, total_budget=budget, epsilon=eps)
+    b = model.identification_chosen_alternatives(database=row, total_budget=budget, epsilon=eps)
+    if not (set(a[0]) == set(b[0]) and a[1] == b[1] and a[2] == b[2]):
+        bad.append(f'identification_chosen_alternatives is not deterministic: {a} vs {b}')
+    chosen, lo, up = a
+    if lo <= up and math.isfinite(lo):
+        dual = (lo + up) / 2 if math.isfinite(up) and up < 1e300 else max(2.0 * lo, 1.0)
+        before = set(chosen)
+        try:
+            r1 = model.optimal_consumption(chosen_alternatives=chosen, dual_variable=dual, epsilon=eps, one_observation=row)
+            r2 = model.optimal_consumption(chosen_alternatives=chosen, dual_variable=dual, epsilon=eps, one_observation=row)
+        except Exception as e:      # noqa
+            return bad + [f'optimal_consumption raised {type(e).__name__}: {e}']
+        if not isinstance(r1, dict) or set(r1) != before:
+            bad.append(f'optimal_consumption: keys {sorted(r1)} for the set {sorted(before)}')
+        if r1 is r2 or r1 is chosen:
+            bad.append('optimal_consumption does not return a new dict')
+        if set(chosen) != before:
+            bad.append('optimal_consumption changed the set it was given')
+        if not (sum(r1.values()) == sum(r2.values()) or (math.isnan(sum(r1.values())) and math.isnan(sum(r2.values())))):
+            bad.append(f'optimal_consumption: total differs between two identical calls: {r1} vs {r2}')
+    return bad
+
+
 def total_utility(spec, sol, eps_pos):
     tot = 0.0
     for i, lab in enumerate(spec.labels):
@@ -105,9 +137,18 @@ def run(draws=20, seed=0, brute=3, variants=None, limit=15):
                     bad('forecast raised', spec, d, budget, eps_pos, f'{type(e).__name__}: {e}')
                     sols.append(None)
                     continue
+                sol = dict(sol)             # a snapshot: later calls must not be able to change what is compared below
                 sols.append(sol)
                 for clause, detail in check_solution(spec, sol, budget, eps_pos):
                     bad(clause, spec, d, budget, eps_pos, detail)
+                n += 1
+                try:
+                    with warnings.catch_warnings():
+                        warnings.simplefilter('ignore')
+                        for detail in assumed_callee_contracts(model, row, budget, eps):
+                            bad('assumed-callee-contracts', spec, d, budget, eps_pos, detail)
+                except Exception as e:      # noqa
+                    bad('assumed-callee-contracts', spec, d, budget, eps_pos, f'{type(e).__name__}: {e}')
                 if d < brute:
                     n += 1
                     try:
